@@ -2,17 +2,31 @@
 C11 — arbitrary client bytes never crash, hang or bloat the server: the parser part.
 
 Theorems over the parser model `GluonModel/Model/Parse/*.lean` (tied to `rfcparser` and
-`imap/command` by the `parse`/`parsebad` correspondence dialects). The session-loop part of C11 (one
-completion result per line, 20 errors close the session) is in its own section below the parser part.
+`imap/command` by the `parse`/`parsebad` correspondence dialects). Every Go `for` loop and the recursion
+of `parseSearchKey` take explicit fuel in the model, so termination is a theorem about the model, not an
+assumption of it. The session-loop part of C11 (one completion result per line, 20 errors close the
+session) has its own section at the end of this file.
+
+History: before commits 18609dc / e5f2a7d the statements `parse_terminates` and "errors are parser
+errors" were false (end of input inside a quoted string looped forever, #7; `{0}` and oversize literals
+returned plain errors, #17); the former witnesses are kept below as regression theorems about the
+repaired code, and as `corpus/C11/*.ops` on the real parser.
 -/
-import GluonModel.Lemmas.ParsePrim
+import GluonModel.Lemmas.ParseTerm
+import GluonModel.Lemmas.ParseNoPanic
+import GluonModel.Lemmas.ParseRetain
 
 namespace Gluon.C11
 open Gluon.Parse
 
-/-- `true` iff the outcome is "loop did not stop within its fuel" -/
+/-- `true` iff the outcome is "a loop did not stop within its fuel" -/
 def isFuel : Res α → Bool
   | .fuel => true
+  | _ => false
+
+/-- `true` iff the outcome is a `*rfcparser.Error` (which the session answers with a tagged BAD) -/
+def isParseError : Res α → Bool
+  | .err (.parse _) _ => true
   | _ => false
 
 /-! ## parser part -/
@@ -21,41 +35,100 @@ def isFuel : Res α → Bool
 return is unreachable, the scanner never fails on a byte. -/
 theorem scanner_total (b : UInt8) : (scanByte? b).isSome = true := scanByte_total b
 
-/-- The loop of `ParseQuoted` at end of input never stops: `IsQuotedChar(TokenTypeEOF)` is true, every
-iteration "matches" the EOF token, advances (to EOF again) and appends a byte. Whatever the fuel, the
-model runs out of it (DESIGN section 9, #7: infinite loop allocating memory). -/
-theorem quotedLoop_eof_diverges (fuel : Nat) (c : Ctx) : quotedLoop fuel (load c []) = .fuel := by
-  induction fuel generalizing c with
-  | zero => rfl
-  | succ n ih =>
-    have hadv : ∀ c : Ctx, advance (load c []) = .ok () (load ⟨Tok.eof, c.cb, c.n⟩ []) := fun _ => rfl
-    have hm : matchesWith isQuotedChar (load c []) = .ok true (load ⟨Tok.eof, c.cb, c.n⟩ []) := by
-      unfold matchesWith
-      simp [isQuotedChar, isQuotedSpecial, bind_ok (hadv c)]
-    unfold quotedLoop
-    rw [bind_ok hm]
-    simp only [if_true, bind_prevVal]
-    rw [bind_def, ih]
+/-! ### termination -/
 
-/-- `parse_terminates` is false of the current code. Witness: the input `a LOGIN "abc` (connection
-closed inside a quoted string). With the linear fuel `fuelFor` — and with any other fuel up to 100 — the
-model does not terminate; the real parser loops forever (replayed by the `parsebad` corpus). -/
-theorem parseQuoted_eof_witness :
-    isFuel (parse (fuelFor (kw "a LOGIN \"abc")) (kw "a LOGIN \"abc")) = true
-    ∧ ∀ f, f ≤ 100 → isFuel (parse f (kw "a LOGIN \"abc")) = true := by
-  constructor <;> decide +kernel
+/-- **`parse_terminates`**, full strength: for EVERY byte string, `Parse` run with any fuel above the input
+length — in particular with the linear `fuelFor input = 2·|input| + 16` the driver uses — does not run out
+of fuel: every loop of the scanner-driven parser (`CollectBytesWhile…`, `ParseNumber`, `ParseQuoted`, the
+list loops, the ID loop, …) and the recursion of `parseSearchKey` consume at least one byte per iteration
+or stop. No hypothesis on the input: malformed, truncated, 8-bit, NUL, bare CR/LF all included. -/
+theorem parse_terminates (input : Bytes) (fuel : Nat) (hf : input.length < fuel) :
+    parse fuel input ≠ .fuel :=
+  parse_total fuel input hf
 
-/-- Quoted strings swallow CRLF: after `a LOGIN "foo` CRLF `b NOOP` CRLF the first command is still
-not complete — the parser is inside the quoted string at end of input (and loops there). -/
-theorem quoted_swallows_crlf_witness :
-    isFuel (parse (fuelFor (kw "a LOGIN \"foo\r\nb NOOP\r\n")) (kw "a LOGIN \"foo\r\nb NOOP\r\n")) = true := by
+/-- the same with the driver's fuel -/
+theorem parse_terminates_fuelFor (input : Bytes) : parse (fuelFor input) input ≠ .fuel :=
+  parse_total _ input (by unfold fuelFor; omega)
+
+/-- Regression of #7: the connection closed inside a quoted string (`a LOGIN "abc`) is a parser error
+now, with every fuel that exceeds the input length; it used to be the witness of non-termination. -/
+theorem quoted_eof_regression :
+    isParseError (parse (fuelFor (kw "a LOGIN \"abc")) (kw "a LOGIN \"abc")) = true := by
   decide +kernel
 
-/-- `{0}` and literals at or above the size cap make `ParseLiteral` return a plain error — not a
-`*rfcparser.Error` — so the session's command reader exits instead of answering BAD (#17). -/
-theorem literal_plain_error_witness :
-    (match parse 100 (kw "a LOGIN {0}\r\n") with | .err .litZero _ => true | _ => false) = true
-    ∧ (match parse 100 (kw "a LOGIN {31457280}\r\n") with | .err .litBig _ => true | _ => false) = true := by
+/-- Regression of #7, second half: a quoted string no longer swallows CRLF — `a LOGIN "foo` CRLF is a
+parser error at the CR, the next line is not eaten. -/
+theorem quoted_crlf_regression :
+    (match parse (fuelFor (kw "a LOGIN \"foo\r\nb NOOP\r\n")) (kw "a LOGIN \"foo\r\nb NOOP\r\n") with
+      | .err (.parse _) s => s.rest == kw "\nb NOOP\r\n"
+      | _ => false) = true := by
+  decide +kernel
+
+/-! ### no panic, and errors are parser errors -/
+
+/-- No Go runtime panic in the parser, for any input and any fuel: the two panic sites
+(`make([]byte, literalSize)` and `dst[0]` in `Scanner.ConsumeBytes`) are guarded by the literal size
+checks, and there is no other slice / index / conversion site (the default panic handler is a no-op, so a
+panic would kill the whole server, not one session). -/
+theorem parse_no_panic (fuel : Nat) (input : Bytes) (s : PState) : parse fuel input ≠ .err .panic s :=
+  parse_noPanic fuel input s
+
+/-- Hence every outcome of `Parse` (with enough fuel) is: a command, a `*rfcparser.Error` (tagged BAD,
+the session continues), or `io.EOF` from inside a literal (the client went away while sending literal
+data). -/
+theorem parse_outcomes (input : Bytes) :
+    (∃ c s, parse (fuelFor input) input = .ok c s) ∨
+    (∃ t s, parse (fuelFor input) input = .err (.parse t) s) ∨
+    (∃ s, parse (fuelFor input) input = .err .ioEOF s) := by
+  cases h : parse (fuelFor input) input with
+  | ok c s => exact Or.inl ⟨c, s, rfl⟩
+  | fuel => exact absurd h (parse_terminates_fuelFor input)
+  | err e s =>
+    cases e with
+    | parse t => exact Or.inr (Or.inl ⟨t, s, rfl⟩)
+    | ioEOF => exact Or.inr (Or.inr ⟨s, rfl⟩)
+    | panic => exact absurd h (parse_no_panic _ input s)
+
+/-- Regression of #17: `{0}` is an (empty) literal, and a literal at or above the size cap is a parser
+error — both used to be plain errors that made the command reader exit without a reply. -/
+theorem literal_regression :
+    (match parse 100 (kw "a LOGIN {0}\r\n {1}\r\nx\r\n") with
+      | .ok ⟨_, .login u p⟩ _ => u == [] && p == kw "x"
+      | _ => false) = true
+    ∧ isParseError (parse 100 (kw "a LOGIN {31457280}\r\n")) = true := by
   constructor <;> decide +kernel
+
+/-! ### retained memory -/
+
+/-- **`retained_le_consumed`**, for the string arguments (where the bytes of a command are): the value
+`ParseAString` returns — atom, quoted string or literal — is never longer than the bytes it consumed, plus
+one: the slack is the end-of-input corner `{1}` CRLF EOF, where `Scanner.ConsumeBytes` copies the LF it
+still holds as `currentByte` into the literal. A literal is allocated (`make`) before its bytes arrive,
+but only below the 30 MB cap (`parseLiteral`: `size ≥ literalCap` is a parser error). The whole-command
+form (sum over all arguments) is not proved; it follows the same accounting. -/
+theorem string_retained_le_consumed (fuel : Nat) (s : PState) (r : Bytes) (s' : PState) (hl : Loaded s)
+    (h : parseAString fuel s = .ok r s') : r.length + s'.input.length ≤ s.input.length + 1 :=
+  parseAString_len fuel s r s' hl h
+
+/-! ### recursion depth (#18) -/
+
+/-- **`depth_bounded`**: what IS true. With a recursion budget `d` above the number of bytes left (and
+loop fuel at least `d`), `parseSearchKey` never exhausts the budget: every level of nesting — `(`,
+`NOT `, `OR ` — consumes at least one byte, so the recursion depth is at most the length of the
+remaining input. -/
+theorem depth_le_input (d fuel : Nat) (hd : d ≤ fuel) (s : PState) (hl : Loaded s)
+    (hs : s.input.length < d) : parseSearchKey d fuel s ≠ .fuel :=
+  (tot_parseSearchKey fuel d hd).tot s hl hs
+
+/-- **`depth_unbounded`**: and nothing better is true. For every budget `d` there is an input of `d` bytes
+(`d` opening parentheses) that exhausts it: the recursion depth of `parseSearchKey` /
+`parseSearchKeyList` grows linearly with the input and no constant bounds it. The Go code has no depth
+limit and no line-length limit; its stack is finite (`SEARCH` + 2·10^7 `(` overflows it — not run in the
+quick tier), and parsing precedes the authentication check. -/
+theorem depth_unbounded (d fuel : Nat) (c : Ctx) (rest : Bytes) :
+    parseSearchKey d fuel (load c (List.replicate d 40 ++ rest)) = .fuel :=
+  parseSearchKey_parens d fuel c rest
+
+/-! ## session loop (added by the lead / the session-loop model) -/
 
 end Gluon.C11
